@@ -440,6 +440,7 @@ def run_sim_check(spec, args):
                 os.remove(path + ".slow")
             if c0 == "ok":
                 watchdog_artefacts.append({"seed": rec["seed"], "variant": rec["variant"], "runs": len(g)})
+                log("note: seed %d (variant %s) hit the wall-clock watchdog and completed normally when replayed alone: counted, no violation" % (rec["seed"], rec["variant"]))
                 return None
         if "plan" not in rec:
             json.dump({"property": pid, "seed": rec["seed"], "variant": rec["variant"], "class": cls, "detail": rec.get("detail", "")}, open(path, "w"), indent=1)
